@@ -133,7 +133,7 @@ func c19PolicyProbeHosts() []string {
 	for _, d := range c19DomOk {
 		out = append(out, d.Host)
 	}
-	return append(out, " localhost", "localhost ", "example.test", "conjure.example.org")
+	return append(out, " localhost", "localhost ", "example.test", "conjure.example.org", "LOCALHOST", "DB.Corp", "123.corp", "host_a.b-c")
 }
 
 type c19Obs struct {
@@ -259,6 +259,10 @@ func c19PolicyMatches(x *c19Ctx, o c19Obs, pol *c19Policy, ips []net.IP, hosts [
 				return "panic:policy", fmt.Sprintf("ParseOrResolveBlocklisted(%s) panicked", c19HostPort(ip))
 			}
 			if want && got != "R" {
+				byAddr := (pol.AllowConfigured && !c19In(pol.Allow, ip)) || (!pol.AllowConfigured && c19In(pol.Block, ip))
+				if pol.domainRefused(ip.String()) && !byAddr {
+					return "dropped:covert_blocklist_domains", fmt.Sprintf("covert %s matches a configured covert_blocklist_domains pattern but is not refused", c19HostPort(ip))
+				}
 				if pol.AllowConfigured {
 					return "dropped:covert_allowlist_subnets", fmt.Sprintf("covert %s is outside the configured allowlist but is not refused", c19HostPort(ip))
 				}
@@ -292,7 +296,7 @@ func c19PolicyMatches(x *c19Ctx, o c19Obs, pol *c19Policy, ips []net.IP, hosts [
 		if want && got != "D" {
 			return "dropped:covert_blocklist_domains", fmt.Sprintf("host %q matches a configured covert_blocklist_domains pattern but is not refused", h)
 		}
-		if !want && got == "D" {
+		if !want && got == "D" && !pol.domainMaybeRefused(h) {
 			return "policy:refuses-unlisted", fmt.Sprintf("host %q matches no configured domain pattern but is refused", h)
 		}
 	}
